@@ -47,9 +47,12 @@ where
     T: Hash + Eq + Clone + Ord + Display + Send + Sync,
     A: Clone + Send + Sync,
 {
-    let nbrs = graph.get_successors_or_neighbors(v.clone());
-    let (clustering_v, potential) = nbrs
+    // a self-loop does not make a node its own neighbour
+    let nbrs = graph
+        .get_successors_or_neighbors(v.clone())
         .into_iter()
+        .filter(|n| n.name != v);
+    let (clustering_v, potential) = nbrs
         .combinations(2)
         .map(|c| {
             get_coefficient_for_combination(v.clone(), c[0].name.clone(), c[1].name.clone(), graph)
@@ -79,7 +82,9 @@ where
         false => squares + 1,
         true => squares + 2,
     };
-    let potential = (u_nbrs.len() - degm) + (w_nbrs.len() - degm) + squares;
+    // on a directed graph u need not have v among its successors: do not underflow
+    let potential =
+        u_nbrs.len().saturating_sub(degm) + w_nbrs.len().saturating_sub(degm) + squares;
     (squares, potential)
 }
 
@@ -91,8 +96,9 @@ where
     A: Clone + Send + Sync,
 {
     graph
-        .get_successors_or_neighbors(nn)
+        .get_successors_or_neighbors(nn.clone())
         .into_iter()
         .map(|n| n.name.clone())
+        .filter(|name| *name != nn)
         .collect::<HashSet<T>>()
 }
